@@ -123,10 +123,14 @@ func vDigits(tag string, n int) (string, int) {
 // parses to the tuple it denotes; shorter well-formed prefixes too.
 func H_C18_parse() {
 	setMerge(true)
-	ms, mv := vDigits("major", concretize(nondetInt("lm"), 1, 2))
-	ns, nv := vDigits("minor", concretize(nondetInt("ln"), 1, 2))
+	maxD := 2
+	if tierThorough() {
+		maxD = 4
+	}
+	ms, mv := vDigits("major", concretize(nondetInt("lm"), 1, maxD))
+	ns, nv := vDigits("minor", concretize(nondetInt("ln"), 1, maxD))
 	ps, pv := vDigits("patch", 1)
-	bs, bv := vDigits("build", concretize(nondetInt("lb"), 1, 2))
+	bs, bv := vDigits("build", concretize(nondetInt("lb"), 1, maxD+1))
 	var s string
 	var want Version
 	switch choose("shape", 5) {
@@ -151,7 +155,11 @@ func H_C18_parse() {
 // non-numeric major is an error.
 func H_C18_malformed() {
 	setMerge(true)
-	n := concretize(nondetInt("len"), 0, 4)
+	maxS := 4
+	if tierThorough() {
+		maxS = 7
+	}
+	n := concretize(nondetInt("len"), 0, maxS)
 	s := nondetStr("s", n)
 	for i := 0; i < n; i++ {
 		assume(s[i] < 0x80)
